@@ -1,19 +1,19 @@
 SPECIFICATION MCFair
 CONSTANTS
   Stages = 2
-  AccEvals = 0
+  AccEvals = 1
   DenseEvals = 0
-  CountRule = "hairer"
-  HasHinit = TRUE
-  HasSmall = TRUE
-  StiffEvery = 2
+  CountRule = "scipy"
+  HasHinit = FALSE
+  HasSmall = FALSE
+  StiffEvery = 0
   StiffLimit = 2
   NonStiffReset = 2
   Metric = TRUE
   S = 4
   HSet = {1, 2, 4}
   NMaxOpts = {3}
-  HMaxOpts = {0}
+  HMaxOpts = {0, 2}
   FsOpts = {TRUE, FALSE}
   AllowInterrupt = FALSE
   MaxMods = 0
